@@ -12,7 +12,10 @@ EXTENDS Integers, Sequences, Report, IOUtils
 (* the stage modules are used for their constant-level operators only *)
 F == INSTANCE Ps2Frame WITH bits <- <<>>, fout <- <<"none">>
 CheckWord(w) == F!CheckWord(w)
-S2 == INSTANCE Set2Decoder WITH ctx <- "Start", sout <- <<"none">>
+(* what the real Set 2 decoder, fresh, returns for each byte (state 1 of its extracted graph): *)
+(* Keyboard::add_word must hand an accepted byte to the scancode stage - which key that is    *)
+(* belongs to C01, not to this check.                                                         *)
+G2 == ndJsonDeserialize(IOEnv.GRAPH2)
 
 W == ndJsonDeserialize(IOEnv.WORDS)
 
@@ -21,7 +24,7 @@ Init == r \in 1..Len(W)
 Next == UNCHANGED r
 Spec == Init /\ [][Next]_r
 
-KbExpected(w) == LET c == CheckWord(w) IN IF c[1] = "err" THEN c ELSE S2!Set2Out("Start", c[2])
+KbExpected(w) == LET c == CheckWord(w) IN IF c[1] = "err" THEN c ELSE G2[1].out[c[2] + 1]
 
 Conforms ==
   LET base == W[r].base IN
